@@ -2,9 +2,21 @@ package main
 
 import "path/filepath"
 
-// emitAll lists every fact extracted from the repository. One block per
-// package; names are stable Lean identifiers.
+// emitters are registered by the per-property files facts_*.go.
+var emitters []func(o *leanOut, repo string)
+
+func register(f func(o *leanOut, repo string)) { emitters = append(emitters, f) }
+
 func emitAll(o *leanOut, repo string) {
+	for _, f := range emitters {
+		f(o, repo)
+	}
+}
+
+func init() { register(emitSeq) }
+
+// emitSeq: constants, option table and effect skeletons of the sequencer (C01-C04, C06-C08, C17).
+func emitSeq(o *leanOut, repo string) {
 	root := loadDir(repo, nil)
 	ctlog := loadDir(filepath.Join(repo, "internal/ctlog"), nil)
 
